@@ -8,13 +8,18 @@ import (
 	"crypto/sha512"
 	"fmt"
 	"math/rand"
+	"strings"
+	"time"
 
+	"github.com/oasisprotocol/oasis-core/go/common"
 	"github.com/oasisprotocol/oasis-core/go/common/cbor"
 	"github.com/oasisprotocol/oasis-core/go/common/crypto/signature"
 	memorySigner "github.com/oasisprotocol/oasis-core/go/common/crypto/signature/signers/memory"
+	"github.com/oasisprotocol/oasis-core/go/common/node"
 	"github.com/oasisprotocol/oasis-core/go/common/quantity"
 	"github.com/oasisprotocol/oasis-core/go/consensus/api/transaction"
 	registry "github.com/oasisprotocol/oasis-core/go/registry/api"
+	scheduler "github.com/oasisprotocol/oasis-core/go/scheduler/api"
 	staking "github.com/oasisprotocol/oasis-core/go/staking/api"
 )
 
@@ -29,6 +34,8 @@ type cnTxSpec struct {
 	Gas      uint64 `json:"gas"`
 	Rotate   string `json:"rotate,omitempty"` // regnode: none | fresh:<role> | move:<from>><to> | swap:<a>:<b>
 	Node     string `json:"node,omitempty"`   // regnode: the node being registered (the signer may be someone else)
+	Runtimes string `json:"runtimes,omitempty"` // regnode: "" (validator only) | "R0" | "R0,R1": compute role for these runtimes
+	Gov      string `json:"gov,omitempty"`     // regruntime: entity | runtime
 	Validity string `json:"validity"` // ok | badnonce | futurenonce | lowgas | badsig | wrongchain | wrongdomain | malformed | replay
 }
 
@@ -108,7 +115,7 @@ func (n *cnNet) buildTx(spec *cnTxSpec, rng *rand.Rand) ([]byte, error) {
 		return nil, fmt.Errorf("unknown signer %s", spec.Signer)
 	}
 	var to staking.Address
-	if spec.To != "" && spec.Kind != "unfreeze" {
+	if spec.To != "" && spec.Kind != "unfreeze" && spec.Kind != "regruntime" {
 		switch spec.To {
 		case "POOL":
 			to = staking.CommonPoolAddress
@@ -116,6 +123,8 @@ func (n *cnNet) buildTx(spec *cnTxSpec, rng *rand.Rand) ([]byte, error) {
 			to = staking.FeeAccumulatorAddress
 		case "GOV":
 			to = staking.GovernanceDepositsAddress
+		case "RA0", "RA1":
+			to = staking.NewRuntimeAddress(runtimeID("R" + spec.To[2:]))
 		default:
 			a, ok := n.account(spec.To)
 			if !ok {
@@ -152,7 +161,16 @@ func (n *cnNet) buildTx(spec *cnTxSpec, rng *rand.Rand) ([]byte, error) {
 			v.rot = cand
 			n.pendingRot[spec] = cand
 		}
-		nd, err := n.nodeDescriptor(idx, uint64(spec.Amount), nil)
+		rts := spec.Runtimes
+		nd, err := n.nodeDescriptor(idx, uint64(spec.Amount), func(nd *node.Node) {
+			if rts == "" {
+				return
+			}
+			nd.Roles |= node.RoleComputeWorker
+			for _, r := range strings.Split(rts, ",") {
+				nd.Runtimes = append(nd.Runtimes, &node.Runtime{ID: runtimeID(r)})
+			}
+		})
 		if err != nil {
 			v.rot = saved
 			return nil, err
@@ -166,6 +184,32 @@ func (n *cnNet) buildTx(spec *cnTxSpec, rng *rand.Rand) ([]byte, error) {
 			sn.MultiSigned.Signatures = sn.MultiSigned.Signatures[:len(sn.MultiSigned.Signatures)-1] // TLS key's signature dropped
 		}
 		tx = registry.NewRegisterNodeTx(spec.Nonce, fee, sn)
+	case "regruntime":
+		// spec.To names the runtime (R0, R1); the signer is the owning entity
+		var ei int
+		fmt.Sscanf(spec.Signer, "E%d", &ei)
+		rt := &registry.Runtime{
+			Versioned: cbor.NewVersioned(registry.LatestRuntimeDescriptorVersion),
+			ID:        runtimeID(spec.To),
+			EntityID:  n.vals[ei].ent.ID,
+			Kind:      registry.KindCompute,
+			Executor:  registry.ExecutorParameters{GroupSize: 1, GroupBackupSize: 0, AllowedStragglers: 0, RoundTimeout: 10, MaxMessages: 32},
+			TxnScheduler: registry.TxnSchedulerParameters{BatchFlushTimeout: time.Second, MaxBatchSize: 1, MaxBatchSizeBytes: 1024, ProposerTimeout: 5 * time.Second},
+			AdmissionPolicy: registry.RuntimeAdmissionPolicy{AnyNode: &registry.AnyNodeRuntimeAdmissionPolicy{}},
+			Constraints: map[scheduler.CommitteeKind]map[scheduler.Role]registry.SchedulingConstraints{
+				scheduler.KindComputeExecutor: {
+					scheduler.RoleWorker:       {MinPoolSize: &registry.MinPoolSizeConstraint{Limit: 1}},
+					scheduler.RoleBackupWorker: {MinPoolSize: &registry.MinPoolSizeConstraint{Limit: 0}},
+				},
+			},
+			GovernanceModel: registry.GovernanceEntity,
+			Deployments:     []*registry.VersionInfo{{}},
+		}
+		if spec.Gov == "runtime" {
+			rt.GovernanceModel = registry.GovernanceRuntime
+		}
+		rt.Genesis.StateRoot.Empty()
+		tx = registry.NewRegisterRuntimeTx(spec.Nonce, fee, rt)
 	case "deregentity":
 		tx = registry.NewDeregisterEntityTx(spec.Nonce, fee)
 	case "unfreeze":
@@ -202,6 +246,10 @@ func (n *cnNet) buildTx(spec *cnTxSpec, rng *rand.Rand) ([]byte, error) {
 	st.Signature.PublicKey = acct.signer.Public()
 	copy(st.Signature.Signature[:], sig)
 	return cbor.Marshal(st), nil
+}
+
+func runtimeID(name string) common.Namespace {
+	return common.NewTestNamespaceFromSeed([]byte("verif-runtime-"+name), common.NamespaceTest)
 }
 
 // rotateKeys returns the candidate rotatable key set after the requested rotation (nil = unchanged).
